@@ -324,7 +324,7 @@ class LoggerJob(VCJob):
                        ("self", "data_list"): Obj("data_list")})
         finals = ex.run(s)
         f = finals[0]
-        seq = [(e.kind, e.args) for e in f.events if e.kind in ("deepcopy", "append", "timeout", "yield", "iter")]
+        seq = [(e.kind, e.args) for e in f.events if e.kind in ("deepcopy", "append", "timeout", "yield", "iter", "get")]
         kinds = [k for k, _ in seq]
         ok = len(finals) == 1 and kinds == ["iter", "deepcopy", "append", "get", "timeout", "yield"][:len(kinds)] if False else None
         kinds2 = [k for k in kinds]
@@ -334,10 +334,14 @@ class LoggerJob(VCJob):
         copied = any(k == "deepcopy" and a and a[0] is data for k, a in seq)
         appended = any(k == "append" and a and isinstance(a[0], Obj) and a[0].name == "copy_of_latest" for k, a in seq)
         slept = any(k == "timeout" and len(a) == 2 and a[0] is core and a[1] is dtv for k, a in seq)
-        ok = okseq and time_written and copied and appended and slept
-        R.append(Result(self.id, "run: each resumption sets time := core.now, appends exactly one deep copy of the latest record, then waits Timeout(core, dt)",
-                        PROVED if ok else REFUTED, "PYVC", "", 0.0, f"event order {kinds2}; time written {time_written}; copy appended {appended}; timeout(dt) {slept}",
-                        None if ok else {"inputs": {}}, 1))
+        # the logging period is READ AGAIN at every resumption (so that a parameter update reaches the row schedule): the
+        # dt.get() event lies inside the iteration, between its start and the Timeout
+        reread = ("iter" in kinds2 and "timeout" in kinds2 and kinds2.count("get") == 1
+                  and kinds2.index("iter") < kinds2.index("get") < kinds2.index("timeout"))
+        ok = okseq and time_written and copied and appended and slept and reread
+        R.append(Result(self.id, "run: each resumption sets time := core.now, appends exactly one deep copy of the latest record, then waits Timeout(core, dt) with dt read at that resumption",
+                        PROVED if ok else REFUTED, "PYVC", "", 0.0, f"event order {kinds2}; time written {time_written}; copy appended {appended}; timeout(dt) {slept}; period re-read inside the iteration {reread}",
+                        None if ok else self.witness_logger(), 1))
         # callback
         exc = Executor(unwrap(uros.Logger.callback), event_calls=lambda d: "deepcopy" if d == "copy.deepcopy" else ("update" if d.endswith(".update") else None))
         exc.event_result = lambda e, st, desc, args: (Obj("copy_of_msg") if desc == "copy.deepcopy" else Opaque(desc))
@@ -353,6 +357,30 @@ class LoggerJob(VCJob):
         R.append(Result(self.id, "callback: latest[topic] := deep copy of the message payload (only that topic)", PROVED if okc else REFUTED, "PYVC", "", 0.0,
                         f"keys written {list(data2)}", None if okc else {"inputs": {}}, 1))
         return R
+
+
+    def witness_logger(self):
+        """concrete history on the real classes: the period is changed while the logger runs"""
+        try:
+            core = uros.Core()
+            pub = uros.Publisher(core, "mag", uros.msgs.Mag)
+            logger = uros.Logger(core)
+            core.init_params()
+            core.set_param("logger/dt", 0.125)
+
+            def changer():
+                yield uros.simpy.Timeout(core, 0.4375)
+                core.set_param("logger/dt", 0.25)
+
+            uros.simpy.Process(core, changer())
+            core.run(until=1.1)
+            times = [float(r["time"]) for r in logger.data_list]
+            want = [0.0, 0.125, 0.25, 0.375, 0.5, 0.75, 1.0]
+            if [round(t, 6) for t in times] != want:
+                return {"inputs": {"history": "logger/dt 0.125, set to 0.25 at t = 0.4375, run until 1.1"}, "row_times": times, "expected": want}
+        except Exception as e:  # the scripted history is only an illustration; the obligation itself is decided on the ast
+            return {"inputs": {}, "replay_error": f"{type(e).__name__}: {e}"}
+        return {"inputs": {}}
 
 
 # =====================================================================================================
